@@ -1,10 +1,5 @@
-#check @List.Nodup.filter
-#check @List.zipWith_self
-#check @List.foldl_map
-#check @List.Nodup.sublist
-#check @List.filter_sublist
-#check @List.mem_iff_getElem?
-#check @List.flatMap_eq_nil_iff
-#check @List.isEmpty_iff
-#check @List.getElem?_eq_getElem
-#check @List.getElem?_eq_some_iff
+#check @List.mem_zipIdx_iff_getElem?
+#check @List.mem_filterMap
+#check @List.mk_mem_zipIdx_iff_getElem?
+#check @Int.toNat_natCast
+#check @Int.toNat_of_nonneg
